@@ -52,8 +52,12 @@ func runVariants(c *Check) []variantResult {
 		}
 		t0 := time.Now()
 		res := variantResult{ID: v.ID, Expect: v.ExpectRule}
-		tmp, err := os.MkdirTemp("", "verif-variant-")
-		if err != nil {
+		// one scratch directory per property, reused for all its variants: the Go build cache keys
+		// packages of the main module by their directory, so a fresh directory per variant would add
+		// a full set of cache entries each time
+		tmp := filepath.Join(os.TempDir(), "verif-variant-"+c.Prop)
+		os.RemoveAll(tmp)
+		if err := os.MkdirAll(tmp, 0o755); err != nil {
 			fatalBroken("variants: %v", err)
 		}
 		func() {
